@@ -70,9 +70,10 @@ FINISH = dict(level="proof",
 
 ENV = {"OPENBLAS_NUM_THREADS": "1", "OMP_NUM_THREADS": "1"}
 HARNESS_A_OPS = ("meanvar", "unitvar", "unitint", "linreg", "whiten", "zca")
+HARNESS_D_OPS = ("regnet", "kmean", "nkuv")
 # families of ops whose steps share objects in a history `op ; op ; ...` (same harness executable, same Session members)
 FAMILIES = {"stat": ["meanvar"], "norm": ["unitvar", "unitvar", "unitint"], "lin": ["linreg", "linreg", "whiten", "zca"],
-            "pca": ["pca"], "lda": ["lda", "wlda"], "fisher": ["fisher"]}
+            "pca": ["pca"], "lda": ["lda", "wlda"], "fisher": ["fisher"], "kern": ["regnet", "regnet", "kmean", "kmean", "nkuv"]}
 SEP = " ; "
 
 
@@ -212,14 +213,15 @@ def gen_case(r, ctx, op, part=None, n=None, hist=False):
         part = part or gen_partition(r, n)
         return f"{name} {wh} {alg} {m} " + table(n, d, part, rows)
     if op in ("lda", "wlda"):
-        classes = r.choice([2, 2, 3, 4])
+        classes = r.choice([1, 2, 2, 2, 3, 4])
         n, d, rows = gen_matrix(r, ctx, n=n or r.choice([classes, classes + 1, classes + 2, 6, 8, 9, 12, 16]), allow_wide=r.chance(1, 8))
         labels = [i % classes for i in range(n)] if r.chance(4, 5) else [r.below(classes) for _ in range(n)]
+        zero_w = op == "wlda" and r.chance(1, 4)                  # some examples (possibly a whole class) with weight 0
         # class-dependent shift so that the class means differ
         for i, row in enumerate(rows):
             for j in range(d): row[j] += labels[i] * ((j % 2) * 2 - 1) * (j + 1) if r.chance(3, 4) else 0
             row.append(labels[i])
-            if op == "wlda": row.append(r.choice([1, 1, 2, 3, 5, 8]))
+            if op == "wlda": row.append(r.choice([0, 0, 1, 2]) if zero_w else r.choice([1, 1, 2, 3, 5, 8]))
         reg_num, reg_shift = r.choice([(0, 0), (0, 0), (1, 0), (1, 3), (1, 10), (5, 1)])
         ctx.hist("lda_reg", f"{reg_num}/2^{reg_shift}")
         part = part or gen_partition(r, n)
@@ -236,7 +238,86 @@ def gen_case(r, ctx, op, part=None, n=None, hist=False):
         if dims == 0 and classes > d and not r.chance(1, 3): dims = d       # default dimension = #classes > d: F-C15-8
         part = part or gen_partition(r, n)
         return f"fisher {r.below(2)} {dims} " + table(n, d, part, rows)
+    if op == "regnet":
+        n, d, rows = gen_matrix(r, ctx, n=n)
+        k = r.choice([1, 1, 2, 3])
+        W = [[r.range(-3, 3) for _ in range(d)] for _ in range(k)]; b = [r.range(-3, 3) for _ in range(k)]
+        for row in rows:
+            x = row[:d]
+            row += [sum(W[c][j] * x[j] for j in range(d)) + b[c] + r.range(-2, 2) for c in range(k)]
+        kern = r.choice([0, 0, 1])
+        # noise variance: powers of two and a few other dyadic values; 2^-10 and 2^-14 with large kernel values take the
+        # semi-definite branch of the trainer (noiseVariance/max(diag) < 1e-5)
+        b_num, b_shift = r.choice([(1, 0), (1, 0), (1, 1), (1, 3), (4, 0), (3, 1), (5, 0), (1, 10), (1, 14)])
+        ctx.hist("regnet_noise", f"{b_num}/2^{b_shift}")
+        ctx.hist("kernel", f"regnet:{'linear' if kern == 0 else 'poly2'}")
+        part = part or gen_partition(r, n)
+        return f"regnet {kern} {b_num} {b_shift} {k} " + table(n, d, part, rows)
+    if op == "kmean":
+        classes = r.choice([1, 2, 2, 2, 3, 4])
+        n, d, rows = gen_matrix(r, ctx, n=n or r.choice([classes, classes + 1, classes + 2, 4, 6, 8, 9, 12]))
+        labels = [i % classes for i in range(n)] if r.chance(3, 4) else [r.below(classes) for _ in range(n)]
+        weighted = r.below(2)
+        zero_w = weighted and r.chance(1, 3)
+        for i, row in enumerate(rows):
+            for j in range(d): row[j] += labels[i] * ((j % 2) * 2 - 1) * (j + 1) if r.chance(3, 4) else 0
+            row.append(labels[i])
+            if weighted: row.append(r.choice([0, 0, 1, 2]) if zero_w else r.choice([1, 1, 2, 3, 5, 8]))
+        kern = r.choice([0, 0, 1])
+        ctx.hist("kernel", f"kmean:{'linear' if kern == 0 else 'poly2'}")
+        ctx.hist("kmean_classes", len(set(labels)))
+        part = part or gen_partition(r, n)
+        return f"kmean {kern} {weighted} " + table(n, d, part, rows)
+    if op == "nkuv":
+        n, d, rows = gen_matrix(r, ctx, n=n)
+        if n == 1 and r.chance(3, 4): n, d, rows = gen_matrix(r, ctx, n=r.range(2, 8))
+        kern = r.choice([0, 0, 1])
+        ctx.hist("kernel", f"nkuv:{'linear' if kern == 0 else 'poly2'}")
+        part = part or gen_partition(r, n)
+        return f"nkuv {kern} " + table(n, d, part, rows)
     raise ValueError(op)
+
+
+def gen_boundary(r, ctx, op):
+    """the degenerate datasets the property quantifies over, for one op, on every run: a single point, two equal points,
+    all points equal, a constant column, more features than points (d = n + 1), duplicated rows; for the classifiers a single
+    class and one example per class, for weighted training zero weights (one example / a whole class)"""
+    out = []
+    base = gen_case(r, ctx, op, part=None, n=4)
+    try:
+        head, n, d, extra, sizes, rows = parse_op(base)
+    except Exception:
+        return [base]
+    name = head[0]
+    def fix(hd, dd, rs):
+        hd = list(hd)
+        if name in ("pca", "pcat", "pcac"): hd[3] = "0"                 # default number of components
+        if name == "fisher": hd[2] = str(min(int(hd[2]), dd))
+        return hd
+    def emit(kind, rs, dd=d, parts=None):
+        rs = [list(x) for x in rs]
+        nn = len(rs)
+        if op in ("lda", "wlda", "fisher", "kmean"):                    # class labels stay contiguous from 0
+            ds = len(rs[0]) - extra
+            rank = {c: i for i, c in enumerate(sorted({x[ds] for x in rs}))}
+            for x in rs: x[ds] = rank[x[ds]]
+        for ps in (parts or [[nn], [1] * nn]):
+            out.append(build_op(fix(head, dd, rs), dd, ps, rs)); ctx.hist("boundary_cases", f"{op}:{kind}")
+    emit("n=1", rows[:1])
+    emit("two-equal-points", [rows[0], rows[0]])
+    emit("all-points-equal", [rows[1]] * 4)
+    emit("constant-column", [[7] + x[1:] for x in rows])
+    emit("duplicated-rows", [rows[0], rows[1], rows[0], rows[1], rows[2]], parts=[[5], [2, 3], [1, 1, 1, 1, 1]])
+    wide = [[(3 * i + 2 * j) % 5 - 2 for j in range(4)] + rows[i][d:] for i in range(3)]
+    emit("d>n", wide, dd=4)
+    if op in ("lda", "wlda", "fisher", "kmean"):
+        emit("single-class", [x[:d] + [0] + x[d + 1:] for x in rows])
+        emit("one-example-per-class", [x[:d] + [i] + x[d + 1:] for i, x in enumerate(rows[:3])])
+    if op == "wlda" or (op == "kmean" and extra == 2):
+        emit("zero-weight-example", [x[:d + 1] + [0 if i == 1 else 2] for i, x in enumerate(rows)])
+        emit("zero-weight-class", [x[:d + 1] + [0 if x[d] == rows[0][d] else 1] for x in rows])
+        emit("all-weights-zero", [x[:d + 1] + [0] for x in rows])
+    return out
 
 
 def gen_all_partitions(r, ctx, op):
@@ -266,11 +347,16 @@ def retable(new, old):
 def _retable(hn, ho, no, do, en, eo, so, rows, full):
     if hn[0] == "linreg" and ho[0] == "linreg":
         hn = hn[:3] + [ho[3]]
+    elif hn[0] == "regnet" and ho[0] == "regnet":
+        hn = hn[:4] + [ho[4]]
+    elif hn[0] == "kmean" and ho[0] == "kmean":
+        if hn[2] == "0": rows = [x[:do + 1] for x in rows]
+        elif eo == 1: rows = [x + [1 + (i * 7) % 3] for i, x in enumerate(rows)]
     elif hn[0] == "lda" and ho[0] == "wlda":
         rows = [x[:do + 1] for x in rows]
     elif hn[0] == "wlda" and ho[0] == "lda":
         rows = [x + [1 + (i * 7) % 3] for i, x in enumerate(rows)]
-    elif en != eo:
+    elif en != eo or (en > 0 and hn[0] != ho[0]):
         raise ValueError("incompatible columns")
     if hn[0] in ("pca", "pcat", "pcac"):
         alg, m = int(hn[2]), int(hn[3])
@@ -347,7 +433,7 @@ def run_lines(ctx, exes, drv, lines, timeout=900):
     groups = {}
     for i, l in enumerate(lines):
         op = opname(l)
-        groups.setdefault("a" if op in HARNESS_A_OPS else "c" if op == "fisher" else "b", []).append(i)   # histories stay within one family
+        groups.setdefault("a" if op in HARNESS_A_OPS else "d" if op in HARNESS_D_OPS else "c" if op == "fisher" else "b", []).append(i)   # histories stay within one family
     for g, idx in groups.items():
         exe = exes[g]
         text = "\n".join(lines[i] for i in idx) + "\n"
@@ -393,9 +479,10 @@ def parse_op(line):
     t = line.split()
     op = t[0].split("@")[0]
     nhead = {"meanvar": 1, "unitint": 1, "unitvar": 2, "linreg": 4, "whiten": 3, "zca": 3, "pca": 4, "pcat": 4, "pcac": 4,
-             "lda": 3, "wlda": 3, "fisher": 3}[op]
+             "lda": 3, "wlda": 3, "fisher": 3, "regnet": 5, "kmean": 3, "nkuv": 2}[op]
     head = t[:nhead]
-    extra = int(t[3]) if op == "linreg" else 1 if op in ("lda", "fisher") else 2 if op == "wlda" else 0
+    extra = (int(t[3]) if op == "linreg" else int(t[4]) if op == "regnet" else 1 + int(t[2]) if op == "kmean" else
+             1 if op in ("lda", "fisher") else 2 if op == "wlda" else 0)
     n, d, nb = int(t[nhead]), int(t[nhead + 1]), int(t[nhead + 2])
     sizes = [int(x) for x in t[nhead + 3:nhead + 3 + nb]]
     vals = [int(x) for x in t[nhead + 3 + nb:]]
@@ -519,6 +606,10 @@ def classify(r):
     if op == "fisher" and set(r.oracle) == {"fisher-direction-not-stationary"} and r.model.startswith("ok "):
         return ("F-C15-7:fisherlda-nonsymmetric-eigenproblem",
                 f"FisherLDA feeds the non-symmetric Sw^-1*Sb to the symmetric eigen-solver; returned directions do not satisfy Sb*w = lambda*Sw*w: `{r.op}`", True)
+    if op == "nkuv" and ("nkuv-zero-variance" in r.model) and set(r.oracle) <= {"nkuv-nonfinite-factor"}:
+        return ("F-C15-10:nkuv-zero-feature-variance",
+                f"NormalizeKernelUnitVariance on data without variance in feature space (all points coincide) installs the factor 1/0 = inf "
+                f"(SHARK_ASSERT(tm > 0) is compiled out in release builds): `{r.op}` -> {r.impl[:80]}", True)
     if op == "lda" and "lda-n-equals-classes" in r.model:
         return ("F-C15-4:lda-n-equals-classes",
                 f"LDA divides the scatter matrix by n - classes = 0: `{r.op}` -> {r.impl[:80]}", True)
@@ -577,6 +668,30 @@ def load_corpus():
 
 LAKE_TARGETS = ["SharkVerif.Props.C15", "drv_c15"]
 
+REGNET_PROBE = """#include <shark/Algorithms/Trainers/RegularizationNetworkTrainer.h>
+#include <shark/Models/Kernels/LinearKernel.h>
+using namespace shark;
+double probe(){ LinearKernel<RealVector> k; RegularizationNetworkTrainer<RealVector> t(&k, 1.0); t.setNoiseVariance(0.5); t.setPrecision(4.0); return t.noiseVariance(); }
+"""
+
+
+def regnet_setters_compile(ctx):
+    """RegularizationNetworkTrainer::setNoiseVariance / setPrecision are members of a class template: whether they can be
+    instantiated is only seen when they are used (finding F-C15-9: `this->C() = ...` assigns to an rvalue).  Syntax-only
+    compile of a probe, cached by the content of the two headers involved."""
+    import hashlib
+    hdrs = [os.path.join(core.REPO, "include/shark/Algorithms/Trainers", h) for h in ("RegularizationNetworkTrainer.h", "AbstractSvmTrainer.h")]
+    key = hashlib.sha256(("".join(open(h).read() for h in hdrs) + REGNET_PROBE).encode()).hexdigest()[:16]
+    d = os.path.join(core.CACHE, "c15probe"); os.makedirs(d, exist_ok=True)
+    res = os.path.join(d, key + ".res")
+    if os.path.exists(res):
+        return open(res).read().strip() == "ok"
+    src = os.path.join(d, key + ".cpp"); open(src, "w").write(REGNET_PROBE)
+    pr = subprocess.run(["g++", "-std=c++11", "-DNDEBUG", "-w", "-fopenmp", "-fsyntax-only", "-I" + ctx.shark_h(),
+                         "-I" + os.path.join(core.REPO, "include"), src], capture_output=True, text=True)
+    open(res, "w").write("ok" if pr.returncode == 0 else "fail\n" + pr.stderr[-2000:])
+    return pr.returncode == 0
+
 
 def build(ctx):
     # three executables built one after the other: at most 3 compiler jobs of Shark translation units at a time
@@ -585,7 +700,9 @@ def build(ctx):
                                                       "src/Algorithms/NormalizeComponentsWhitening.cpp"])
     b = ctx.harness("c15b", ["c15b.cpp"], repo_sources=["src/Algorithms/PCA.cpp", "src/Algorithms/LDA.cpp", "src/Core/Random.cpp"])
     c = ctx.harness("c15c", ["c15c.cpp"], repo_sources=["src/Algorithms/FisherLDA.cpp"])
-    return {"a": a, "b": b, "c": c}
+    flags = ["-DC15_HAVE_REGNET_SETTERS"] if regnet_setters_compile(ctx) else []
+    d = ctx.harness("c15d" + ("s" if flags else ""), ["c15d.cpp"], repo_sources=["src/Core/Random.cpp"], flags=flags)   # header-only kernel trainers
+    return {"a": a, "b": b, "c": c, "d": d}
 
 
 def nontrivial(line):
@@ -597,6 +714,31 @@ def nontrivial(line):
         return len(sizes) > 1 or const or d > n
     except Exception:
         return False
+
+
+def degenerate(step):
+    """the degenerate-data classes of one op line (measured on the generated text, not on the generator's intent)"""
+    head, n, d, extra, sizes, rows = parse_op(step)
+    op = head[0].split("@")[0]
+    xs = [tuple(x[:d]) for x in rows]
+    out = []
+    if n == 1: out.append("n=1")
+    if n == 2: out.append("n=2")
+    if d > n: out.append("d>n")
+    if n > 1 and len(set(xs)) == 1: out.append("all-points-equal")
+    elif len(set(xs)) < n: out.append("duplicated-rows")
+    if n > 1 and any(len({x[j] for x in xs}) == 1 for j in range(d)): out.append("constant-column")
+    if all(v == 0 for x in xs for v in x): out.append("all-zero")
+    if max([abs(v) for x in xs for v in x] + [0]) >= 16: out.append("large-values")
+    if op in ("lda", "wlda", "fisher", "kmean"):
+        labs = [x[d] for x in rows]
+        if len(set(labs)) == 1: out.append("single-class")
+        if len(set(labs)) == n and n > 1: out.append("one-example-per-class")
+    if op == "wlda" or (op == "kmean" and extra == 2):
+        ws = [x[d + 1] for x in rows]
+        if any(w == 0 for w in ws): out.append("zero-weight")
+        if all(w == 0 for w in ws): out.append("all-weights-zero")
+    return out or ["none"]
 
 
 def run(ctx):
@@ -617,9 +759,17 @@ def run(ctx):
     r = ctx.rng.fork("c15")
     corpus = load_corpus()
     ctx.cov["corpus_cases"] = len(corpus)
-    per = 400 if ctx.quick else 4000
+    per = 300 if ctx.quick else 3000
     lines = list(corpus)
-    for op in ("meanvar", "unitvar", "unitint", "linreg", "whiten", "zca", "pca", "lda", "wlda", "fisher"):
+    if not regnet_setters_compile(ctx):
+        ctx.violation("F-C15-9:regnet-setters-not-instantiable",
+                      {"probe": REGNET_PROBE, "compile": "g++ -std=c++11 -fsyntax-only -I<repo>/include probe.cpp"}, found_input=True,
+                      what="RegularizationNetworkTrainer::setNoiseVariance / setPrecision cannot be instantiated (`this->C() = ...` assigns to an rvalue)")
+    OPS = ("meanvar", "unitvar", "unitint", "linreg", "whiten", "zca", "pca", "lda", "wlda", "fisher", "regnet", "kmean", "nkuv")
+    for op in OPS:
+        for _ in range(2 if ctx.quick else 10):
+            lines += gen_boundary(r, ctx, op)
+    for op in OPS:
         lines += [gen_scaled(r, ctx, gen_case(r, ctx, op)) for _ in range(per)]
         for _ in range(3 if ctx.quick else 30):
             allp = gen_all_partitions(r, ctx, op)
@@ -635,6 +785,7 @@ def run(ctx):
             ctx.hist("op_mix", opname(st))
             try:
                 ctx.hist("batches", len(parse_op(st)[4]))
+                for f in degenerate(st): ctx.hist("degenerate_data", f"{opname(st)}:{f}"); ctx.hist("degenerate_data_all_ops", f)
             except Exception:
                 pass
     ctx.cov["evaluations"] = len(lines)
